@@ -10,13 +10,13 @@ Definition unicode_ok (is_uspace is_udigit : N -> bool) : Prop :=
     ((c =? 120) || (c =? 111) || (c =? 98)) = false /\ (c =? ch_under) = false /\ (c =? ch_dot) = false.
 
 (* (a) + (b): for every rune sequence, advancing the lexer reaches end of stream with fuel linear in
-   the input, after at most 3*|s| tokens, and only when every rune has been consumed *)
+   the input, after at most 3*|s|+3 tokens, and only when every rune has been consumed *)
 Theorem C03_tokenizing_terminates_and_consumes :
   forall is_uspace is_udigit, unicode_ok is_uspace is_udigit ->
   forall s : list N,
   exists ts lf,
-    lex_all is_uspace is_udigit fixed_lex (3 * length s + 1) (3 * length s + 4) (lx_new s) = Some (ts, lf) /\
-    (length ts <= 3 * length s)%nat /\
+    lex_all is_uspace is_udigit fixed_lex (3 * length s + 4) (3 * length s + 7) (lx_new s) = Some (ts, lf) /\
+    (length ts <= 3 * length s + 3)%nat /\
     rest (rd lf) = [] /\ hist (rd lf) = [] /\ ungot (rd lf) = false /\
     Forall tok_wf ts.
 Proof.
